@@ -10,11 +10,17 @@
 //   witness kind=sdiffstore|sinterstore|del conns= active= hold_ms= out= [timeout_ms=] [scan_count=] [buckets=]
 //       -> "witness kind= cmd_reply=<resp> held= final_read=<resp> dst_has_key= src_has_key= trace="
 //
+//   collide kind=del|sdiffstore n=2|3 target=<0..n-1> conns= active= out= [wait_ms=150] [timeout_ms=]
+//       directed scenario: n range keys with the SAME migration lock slot in ONE scan batch (buckets=1); the scanner's first
+//       SCAN is held until a deleting command for colliding key #target (batch order) sent through P2 has its UMSYNC
+//       in flight on P1 (its PTTL on R1 is held: the push path owns the slot lock); then the scan batch runs.
+//       -> "collide kind= n= target= cmd_reply= gates=<scan><pttl><restore> final_read= dst_has_key= src_has_key= trace="
+//
 // Topology (nothing real is opened): P1 127.0.1.1:7001 / R1 127.0.1.1:6001 (source), P2 127.0.2.1:7002 / R2 127.0.2.1:6002
 // (destination); see net.rs for the fake network, store.rs for the storing Redis stand-in, scen.rs for the scenarios and
 // the trace format (JSON lines: meta, epoch, inv, hop, rep, redis, p2p, phase, commit, hold, final; every event has a
 // global `seq` and a wall-clock `us` that is informational only).
-use crate::scen::{run_mig, run_witness, Params};
+use crate::scen::{run_collide, run_mig, run_witness, Params};
 use crate::util::bulk_cmd;
 use undermoon::protocol::RespPacket;
 use undermoon::proxy::command::{requires_blocking_migration, Command};
@@ -44,6 +50,7 @@ pub fn run_case(_rt: &tokio::runtime::Runtime, line: &str) -> String {
         // the scenarios run on their OWN multi-thread runtime (the main loop's has only 2 workers)
         "mig" => run_mig(&Params::parse(&toks[1..])),
         "witness" => run_witness(&Params::parse(&toks[1..])),
+        "collide" => run_collide(&Params::parse(&toks[1..])),
         k => format!("unknown-kind {}", k),
     }
 }
